@@ -35,6 +35,7 @@ and ``.``/``..`` components in mailbox names (C08/C11), NUL in literals."""
 
 from __future__ import annotations
 
+import asyncio
 import hashlib
 import random
 import re
@@ -382,6 +383,8 @@ def norm_resp(r: Resp, ren: Renamer) -> Any:
     if typ == b'STATUS' and isinstance(d, dict):
         att = []
         for k, v in sorted(d['att'].items()):
+            if k == b'RECENT':
+                continue
             if k == b'UIDVALIDITY':
                 v = ren('uv', b'%d' % v)
             elif k == b'MAILBOXID':
@@ -394,14 +397,16 @@ def norm_resp(r: Resp, ren: Renamer) -> Any:
             if k in (b'EMAILID', b'THREADID') and v is not None:
                 v = ren('oid', v)
             if k == b'FLAGS':
-                v = tuple(sorted(f.lower() for f in v))
+                v = tuple(sorted(set(f.lower() for f in v) - {b'\\recent'}))
             items.append((repr(norm_fetch_key(k)), _plain(v)))
         return (typ, r.num, tuple(sorted(items)), errs)
     if typ == b'SEARCH' and isinstance(d, list):
         return (typ, tuple(sorted(d)), errs)
     if typ == b'FLAGS' and isinstance(d, list):
         return (typ, tuple(sorted(f.lower() for f in d)), errs)
-    if typ in (b'EXISTS', b'RECENT', b'EXPUNGE'):
+    if typ == b'RECENT':
+        return (typ, errs)      # session specific, owned by C17
+    if typ in (b'EXISTS', b'EXPUNGE'):
         return (typ, r.num, errs)
     # anything else: the raw line (untagged, so no tag inside)
     return ('raw', r.raw, errs)
@@ -416,10 +421,12 @@ def _plain(v: Any) -> Any:
 
 
 def norm_result(r: Result, ren: Renamer) -> list[Any]:
-    un = [norm_resp(u, ren) for u in r.untagged]
+    # "* n RECENT" is session specific and, on maildir, depends on directory
+    # order (C17): neither its value nor its presence is compared
+    un = [norm_resp(u, ren) for u in r.untagged if u.typ != b'RECENT']
     if un and all(u[0] in (b'LIST', b'LSUB') for u in un):
         un.sort(key=repr)
-    out: list[Any] = [('conts', len(r.conts))] + un
+    out: list[Any] = un
     if r.tagged is not None:
         t = norm_resp(r.tagged, ren)
         out.append(('tagged',) + tuple(t[1:]))
@@ -434,7 +441,7 @@ def norm_result(r: Result, ren: Renamer) -> list[Any]:
 
 _ENVS: list[Any] = []       # for the watchdog's cleanup
 DUMP_ATTRS = b'(UID FLAGS INTERNALDATE RFC822.SIZE BODY.PEEK[])'
-STATUS_ATTRS = b'(MESSAGES RECENT UIDNEXT UIDVALIDITY UNSEEN)'
+STATUS_ATTRS = b'(MESSAGES UIDNEXT UIDVALIDITY UNSEEN)'
 
 
 class Died(Exception):
@@ -450,8 +457,40 @@ async def _open(env: Any, cid: int) -> Conn:
     return conn
 
 
+async def _command(conn: Conn, tag: bytes, segs: list[bytes]) \
+        -> Result | None:
+    """``conn.command`` that notices when the exchange is stuck: every task
+    is blocked (the server waits for input it will never get, the client
+    waits for the completion) and virtual time does not help.  Returns None
+    then."""
+    loop: Any = asyncio.get_event_loop()
+    task = loop.create_task(conn.command(tag, segs, delay=False))
+    tries = 0
+    while not task.done():
+        q = loop.quiescent()
+        await asyncio.wait([task, q], return_when=asyncio.FIRST_COMPLETED)
+        if task.done():
+            break
+        if tries < 4 and any(not h._cancelled for h in loop._scheduled):
+            tries += 1
+            await loop.advance(1.0)
+            continue
+        task.cancel()
+        try:
+            await task
+        except asyncio.CancelledError:
+            pass
+        return None
+    return task.result()
+
+
 async def _must(conn: Conn, line: bytes) -> Result:
-    r = await conn.simple(line, delay=False)
+    tag = conn.next_tag()
+    r = await _command(conn, tag, [tag + b' ' + line + b'\r\n'])
+    if r is None:
+        conn.hard_reset()
+        raise Died('no response (server waits for more input) to %r'
+                   % line[:60])
     if r.tagged is None:
         raise Died('closed during %r' % line[:60])
     return r
@@ -534,7 +573,14 @@ async def run_once(fam: dict[str, Any], backend: str, kinds: list[str],
             tag = b'x1'
             segs = render(tag, fam['cmd'], kinds, case, space, vseed)
             rec['wire'] = segs
-            r = await conn.command(tag, segs, delay=False)
+            r = await _command(conn, tag, segs)
+            if r is None:
+                rec['cond'] = b'HUNG'
+                res.append(('cmd', 'no response: the server waits for more '
+                            'input than the command has'))
+                conn.hard_reset()
+                await conn.wait_closed()
+                raise Died('hung')
             rec['cond'] = r.cond
             res.append(('cmd', norm_result(r, ren)))
             if r.tagged is None:
@@ -582,6 +628,9 @@ def _short(x: Any, n: int = 400) -> str:
     return s if len(s) <= n else s[:n] + '...'
 
 
+_LITPLUS_TAIL = re.compile(rb'\{\d+\+\}\Z')
+
+
 def classify(base_mech: str, label: str, fam: dict[str, Any],
              base: dict[str, Any], var: dict[str, Any],
              bkinds: list[str], vkinds: list[str]) -> str:
@@ -592,9 +641,17 @@ def classify(base_mech: str, label: str, fam: dict[str, Any],
         if side['cond'] == b'BAD' and other['cond'] != b'BAD' and any(
                 k == 'atom' and b'}' in a.v for k, a in zip(kinds, args)):
             return 'atom-with-rbrace-refused'
+    for side, kinds in ((var, vkinds), (base, bkinds)):
+        if side['cond'] == b'HUNG' and any(
+                k == 'nonsync' and _LITPLUS_TAIL.search(a.v)
+                for k, a in zip(kinds, args)):
+            # RFC 7888 literal whose *content* ends in "{n+}" right before
+            # the CRLF that ends the command line
+            return 'nonsync-literal-content-ending-in-literal-plus-misframed'
     if fam.get('hdrlist') and any(
-            (bk == 'atom') != (vk == 'atom')
-            for bk, vk, a in zip(bkinds, vkinds, args)):
+            bk != vk and 'atom' != bk or 'atom' != vk and bk != vk
+            for bk, vk in zip(bkinds, vkinds)):
+        # a header name spelled as quoted string or literal
         return 'header-list-name-keeps-wire-spelling'
     kind = label
     if label in KINDS:
@@ -961,7 +1018,8 @@ def fam_append(rng: random.Random, backend: str) -> dict[str, Any]:
     classes: list[str] = []
     v = _mbox(rng, backend, classes)
     body = rng.choice([b'', b'plain body\r\n', b'8bit \xe9\xff\r\n',
-                       b'ends {3}\r\n', b'{5+}\r\nhello', b'x' * 3000])
+                       b'ends {3}\r\n', b'{5+}\r\nhello', b'x' * 3000,
+                       b'ends with {3+}', b'ends with {3}'])
     msg = mk_msg(7, b'appended', b'', body)
     cmd: list[Any] = [C(b'APPEND'), SP, A(v, 'mailbox'), SP]
     if rng.random() < 0.7:
@@ -1091,8 +1149,10 @@ def fam_login(rng: random.Random, backend: str) -> dict[str, Any]:
                                        ASCII_NAME.encode())
             v, c = gen_value(rng, 'astring', backend)
             try:
-                v.decode('utf-8')
-            except UnicodeDecodeError:
+                from pysasl.prep import saslprep
+                if saslprep(v.decode('utf-8')) != v.decode('utf-8'):
+                    continue
+            except (UnicodeDecodeError, ValueError):
                 continue
             classes.append('login:' + c)
             return v
@@ -1223,6 +1283,25 @@ def build_family(spec: dict[str, Any]) -> tuple[dict[str, Any],
 # part (ii): names round trip through CREATE / LIST / LSUB / STATUS
 # ---------------------------------------------------------------------------
 
+_BARE_AMP = re.compile(rb'&[A-Za-z0-9+,]+-&(?!-)')
+
+
+def _undecodable_kind(raw: bytes, exc: Exception) -> str:
+    if _BARE_AMP.search(raw):
+        # the '&' that follows the end of a shifted run is not spelled '&-'
+        return 'bare-amp-after-shift'
+    if b'&' in raw and not re.search(rb'&[A-Za-z0-9+,]*-', raw):
+        return 'bare-amp'
+    msg = str(exc)
+    for key, kind in (('never terminated', 'unterminated-shift'),
+                      ('alphabet', 'bad-base64'), ('stray', 'stray-bits'),
+                      ('surrogate', 'lone-surrogate'),
+                      ('printable', 'octet-not-printable-ascii')):
+        if key in msg:
+            return kind
+    return 'other'
+
+
 async def run_names(spec: dict[str, Any], counters: dict[str, int],
                     viol: list[dict[str, Any]]) -> str | None:
     rng = random.Random(spec['seed'])
@@ -1257,10 +1336,9 @@ async def run_names(spec: dict[str, Any], counters: dict[str, int],
             enc = mutf7_encode(nm)
             assert mutf7_decode(enc) == nm
             kind = rng.choice(kinds_for(enc, 'mailbox'))
-            r = await conn.command(b'c1', render(
-                b'c1', [C(b'CREATE'), SP, A(enc, 'mailbox')], [kind]),
-                delay=False)
-            if r.tagged is None:
+            r = await _command(conn, b'c1', render(
+                b'c1', [C(b'CREATE'), SP, A(enc, 'mailbox')], [kind]))
+            if r is None or r.tagged is None:
                 raise Died('closed by CREATE')
             if not r.ok:
                 cnt('names_create_refused')
@@ -1271,6 +1349,7 @@ async def run_names(spec: dict[str, Any], counters: dict[str, int],
         for verb in (b'LIST', b'LSUB'):
             r = await _must(conn, verb + b' "" *')
             decoded: dict[str, bytes] = {}
+            undecodable = 0
             for u in r.untagged:
                 if u.typ != verb or not isinstance(u.data, dict) \
                         or u.data['name'] is None:
@@ -1279,10 +1358,11 @@ async def run_names(spec: dict[str, Any], counters: dict[str, int],
                 try:
                     decoded[mutf7_decode(raw)] = raw
                 except MUtf7Error as exc:
-                    # which created name is it?  (for the witness only)
                     cnt('names_undecodable')
+                    undecodable += 1
                     viol.append({
-                        'mech': 'name-reported-undecodable',
+                        'mech': 'name-undecodable:' +
+                        _undecodable_kind(raw, exc),
                         'detail': '%s: %s reports %r, which is not modified '
                         'UTF-7 (%s); names created: %s' % (
                             backend, verb.decode(), raw, exc,
@@ -1294,6 +1374,10 @@ async def run_names(spec: dict[str, Any], counters: dict[str, int],
             if verb == b'LIST':
                 for nm in created:
                     cnt('names_roundtripped')
+                    if nm not in decoded and undecodable > 0:
+                        # presumably one of the undecodable lines above
+                        undecodable -= 1
+                        continue
                     if nm not in decoded:
                         near = [ascii(d) for d in decoded
                                 if d[:2] == nm[:2]][:4]
@@ -1306,10 +1390,10 @@ async def run_names(spec: dict[str, Any], counters: dict[str, int],
         for nm in created:
             enc = mutf7_encode(nm)
             kind = rng.choice(kinds_for(enc, 'mailbox'))
-            r = await conn.command(b's1', render(
+            r = await _command(conn, b's1', render(
                 b's1', [C(b'STATUS'), SP, A(enc, 'mailbox'), SP,
-                        b'(MESSAGES)'], [kind]), delay=False)
-            if r.tagged is None:
+                        b'(MESSAGES)'], [kind]))
+            if r is None or r.tagged is None:
                 raise Died('closed by STATUS')
             if not r.ok:
                 cnt('names_status_refused')
@@ -1324,7 +1408,8 @@ async def run_names(spec: dict[str, Any], counters: dict[str, int],
             try:
                 back = mutf7_decode(got[0])
             except MUtf7Error as exc:
-                report('name-reported-undecodable', nm,
+                report('name-undecodable:' +
+                       _undecodable_kind(got[0], exc), nm,
                        'STATUS reports %r: %s' % (got[0], exc),
                        reported=got[0])
                 continue
@@ -1399,6 +1484,10 @@ def fed_parse(cls: Any, wire: bytes, **pkw: Any) -> tuple[Any, bytes]:
     raise RuntimeError('continuation loop')
 
 
+def _atomic(w: bytes) -> bool:
+    return bool(w) and all(c in ASTRING_CH or c == 0x5c for c in w)
+
+
 def _days_in(y: int, m: int) -> int:
     if m == 12:
         return 31
@@ -1452,6 +1541,14 @@ def run_inproc(spec: dict[str, Any], counters: dict[str, int],
 
     def report(mech: str, detail: str, **w: Any) -> None:
         mech = '%s:%s' % (mech, w.pop('label', None) or cname)
+        wire = w.get('wire') or w.get('serialised') or b''
+        if w.pop('atomic', False) and b'}' in wire and (
+                mech.startswith('legal-spelling-unparseable')
+                or (mech.split(':')[0] in ('parse-consumes-wrong-length',
+                                           'roundtrip-consumes-wrong-length')
+                    and w.get('left', b'')[:1] == b'}')):
+            # a legal atom containing '}' (an ATOM-CHAR) is cut short
+            mech = 'atom-with-rbrace-refused'
         if mech in seen:
             return
         seen.add(mech)
@@ -1473,7 +1570,9 @@ def run_inproc(spec: dict[str, Any], counters: dict[str, int],
             try:
                 obj2, rest = fed_parse(cls, w + tail, **pkw)
             except NotParseable:
-                report('roundtrip-unparseable',
+                report('built-quoted-string-contains-cr'
+                       if w[:1] == b'"' and b'\r' in w
+                       else 'roundtrip-unparseable',
                        '%s: bytes(%s object) = %r does not parse again '
                        '(tail %r)' % (cname, origin, w[:80], tail),
                        serialised=w[:300], tail=tail, origin=origin)
@@ -1483,7 +1582,7 @@ def run_inproc(spec: dict[str, Any], counters: dict[str, int],
                        '%s: bytes(%s object) = %r followed by %r: parser '
                        'left %r' % (cname, origin, w[:80], tail, rest[:80]),
                        serialised=w[:300], tail=tail, left=rest[:300],
-                       origin=origin)
+                       origin=origin, atomic=_atomic(w))
                 return
             if not same(obj, obj2):
                 report('roundtrip-value-changed',
@@ -1506,13 +1605,15 @@ def run_inproc(spec: dict[str, Any], counters: dict[str, int],
             except NotParseable:
                 report('legal-spelling-unparseable',
                        '%s: legal spelling %r (tail %r) is refused'
-                       % (cname, wire[:80], tail), wire=wire[:300], tail=tail)
+                       % (cname, wire[:80], tail), wire=wire[:300], tail=tail,
+                       atomic=_atomic(wire))
                 return
             if rest != tail:
                 report('parse-consumes-wrong-length',
                        '%s: %r followed by %r: parser left %r'
                        % (cname, wire[:80], tail, rest[:80]),
-                       wire=wire[:300], tail=tail, left=rest[:300])
+                       wire=wire[:300], tail=tail, left=rest[:300],
+                       atomic=_atomic(wire))
                 return
             if not expect(obj):
                 report('parse-value-wrong',
@@ -1536,12 +1637,17 @@ def run_inproc(spec: dict[str, Any], counters: dict[str, int],
     def same_val(a: Any, b: Any) -> bool:
         return a.value == b.value and (a == b)
 
-    n = spec['n']
+    explicit = [x.encode('latin-1') if cname != 'Mailbox' else x
+                for x in spec.get('values') or []]
+    n = len(explicit) or spec['n']
+
+    def pick(gen: Callable[[], Any]) -> Any:
+        return explicit.pop(0) if explicit else gen()
     if cname in ('QuotedString', 'LiteralString', 'AString', 'String',
                  'StringBuild'):
         for _ in range(n):
             if cname == 'QuotedString':
-                v = gen_string_value(rng, True)
+                v = pick(lambda: gen_string_value(rng, True))
                 if any(c in (0, 10, 13) for c in v):
                     continue
                 from_wire(QuotedString, quote(v), lambda o: o.value == v,
@@ -1549,7 +1655,8 @@ def run_inproc(spec: dict[str, Any], counters: dict[str, int],
                 roundtrip(QuotedString, QuotedString(v), same_val, 'built',
                           {})
             elif cname == 'LiteralString':
-                v = gen_string_value(rng, False).replace(b'\x00', b'\x01')
+                v = pick(lambda: gen_string_value(rng, False)) \
+                    .replace(b'\x00', b'\x01')
                 for wire in (b'{%d}\r\n' % len(v) + v,
                              b'{%d+}\r\n' % len(v) + v):
                     from_wire(LiteralString, wire, lambda o: o.value == v,
@@ -1558,7 +1665,7 @@ def run_inproc(spec: dict[str, Any], counters: dict[str, int],
                           {})
             elif cname in ('AString', 'String'):
                 cls = AString if cname == 'AString' else String
-                v = gen_string_value(rng, rng.random() < 0.5) \
+                v = pick(lambda: gen_string_value(rng, rng.random() < 0.5)) \
                     .replace(b'\x00', b'\x01')
                 pos = 'astring' if cname == 'AString' else 'string'
                 for k in kinds_for(v, pos):
@@ -1571,7 +1678,7 @@ def run_inproc(spec: dict[str, Any], counters: dict[str, int],
                                                   for c in v):
                     roundtrip(AString, AString(v), same_val, 'built', {})
             else:
-                v = gen_string_value(rng, rng.random() < 0.5)
+                v = pick(lambda: gen_string_value(rng, rng.random() < 0.5))
                 obj = String.build(v, binary=False)
                 if not v:
                     continue
@@ -1657,7 +1764,9 @@ def run_inproc(spec: dict[str, Any], counters: dict[str, int],
                          and rng.random() < 0.5 else c for c in w)
         for _ in range(n):
             r = rng.random()
-            if r < 0.5:
+            if explicit:
+                wire = explicit.pop(0)
+            elif r < 0.5:
                 wire = b'\\' + mix(rng.choice(sysf))
             elif r < 0.8:
                 wire = rng.choice(kws)
@@ -1701,7 +1810,8 @@ def run_inproc(spec: dict[str, Any], counters: dict[str, int],
             roundtrip(DateTime, DateTime(when), same_dt, 'built', {})
     elif cname == 'Mailbox':
         for _ in range(n):
-            name = gen_unicode_name(rng, rng.choice([6, 20, 120]), 'dict')
+            name = pick(lambda: gen_unicode_name(
+                rng, rng.choice([6, 20, 120]), 'dict'))
             if not name_ok(name):
                 continue
             cnt('rt_Mailbox')
@@ -1712,10 +1822,11 @@ def run_inproc(spec: dict[str, Any], counters: dict[str, int],
                                     .replace(b'\\\\', b'\\'))
             except MUtf7Error as exc:
                 # do NOT hand it to pymap's decoder: it may never return
-                report('name-encoded-undecodable',
+                report('name-undecodable',
                        'bytes(Mailbox(%s)) = %r is not modified UTF-7: %s'
                        % (ascii(name), w[:80], exc), name=ascii(name),
-                       codepoints=[ord(c) for c in name], serialised=w)
+                       codepoints=[ord(c) for c in name], serialised=w,
+                       label=_undecodable_kind(w, exc))
                 continue
             if back != name:
                 report('name-encoded-wrong',
@@ -1766,25 +1877,36 @@ async def script_e2e(name: str, counters: dict[str, int],
             prep=[b'CREATE "a}b"'])
         await run_e2e(fam, rng, counters, viol,
                       [('atom', ['atom'], 'upper', 'single')], ['quoted'])
+    elif name == 'nonsync-literal-plus-tail':
+        # CREATE "abc {3+}" vs CREATE {8+}CRLF abc {3+}CRLF
+        fam = _script_fam(b'CREATE', [
+            C(b'CREATE'), SP, A(b'abc {3+}', 'mailbox')], prep=[])
+        await run_e2e(fam, rng, counters, viol,
+                      [('nonsync', ['nonsync'], 'upper', 'single'),
+                       ('sync', ['sync'], 'upper', 'single')], ['quoted'])
     else:
         raise ValueError(name)
 
 
 SCRIPT_NAMES = {
-    # (ii): U+00E9 '&' -- an ampersand right after a shifted run
+    # (ii): U+00E9 '&' 'x' -- an ampersand right after a shifted run
     'name-amp-after-shift': {'part': 'names', 'backend': 'dict', 'seed': 1,
                              'names': ['\u00e9&x']},
     # (iii): QuotedString.parse(b'"abc" next') caches b'"abc" '
     'quoted-raw-cache': {'part': 'inproc', 'cls': 'QuotedString', 'seed': 1,
-                         'n': 40},
-    'astring-raw-cache': {'part': 'inproc', 'cls': 'AString', 'seed': 1,
-                          'n': 60},
+                         'values': ['abc']},
+    'astring-quoted-raw-cache': {'part': 'inproc', 'cls': 'AString',
+                                 'seed': 1, 'values': ['a b']},
     'flag-atom-rbrace': {'part': 'inproc', 'cls': 'Flag', 'seed': 1,
-                         'n': 400},
-    'mailbox-encode': {'part': 'inproc', 'cls': 'Mailbox', 'seed': 1,
-                       'n': 300},
-    'string-build': {'part': 'inproc', 'cls': 'StringBuild', 'seed': 1,
-                     'n': 400},
+                         'values': ['a}b']},
+    'astring-atom-rbrace': {'part': 'inproc', 'cls': 'AString', 'seed': 1,
+                            'values': ['a}b']},
+    'astring-atom-rbracket': {'part': 'inproc', 'cls': 'AString', 'seed': 1,
+                              'values': ['a]b']},
+    'mailbox-amp-after-shift': {'part': 'inproc', 'cls': 'Mailbox',
+                                'seed': 1, 'values': ['\u00e9&x']},
+    'string-build-cr': {'part': 'inproc', 'cls': 'StringBuild', 'seed': 1,
+                        'values': ['a\rb']},
 }
 
 
@@ -1852,16 +1974,16 @@ class C18(Check):
     def cases(self, tier: str, seed: int) -> Iterable[dict[str, Any]]:
         quick = tier == 'quick'
         rng = random.Random(seed * 7919 + 18)
-        n_e2e = 2300 if quick else 2300 * 14
-        n_names = 130 if quick else 130 * 14
-        n_inproc = 8 if quick else 8 * 14      # per class
+        n_e2e = 1400 if quick else 1400 * 15
+        n_names = 120 if quick else 120 * 15
+        n_inproc = 8 if quick else 8 * 15      # per class
         names = [f[0] for f in FAMILIES]
         weights = [f[1] for f in FAMILIES]
         out: list[dict[str, Any]] = []
         for i in range(n_e2e):
             out.append({'part': 'e2e',
                         'family': rng.choices(names, weights)[0],
-                        'backend': 'dict' if rng.random() < 0.8
+                        'backend': 'dict' if rng.random() < 0.92
                         else 'maildir',
                         'seed': seed * 1_000_003 + i})
         for i in range(n_names):
